@@ -287,12 +287,29 @@ def resolve_sources(pm: PM, cls: ClassInfo, fn: FuncInfo, expr: ast.expr, depth:
             ps = ff.paths(sl, spine_only=True)
             if len(ps) == 1 and not ps[0].ops and ps[0].atom.kind in ("selfattr", "const"):
                 return f"[{ps[0].atom.name}]"
+            if len(ps) == 1 and not ps[0].ops and ps[0].atom.kind == "param" and depth < 3:
+                # a key handed in by the callers: one text per distinct argument (joined when they differ)
+                ks = sorted(resolve_sources(pm, cls, fn, sl, depth + 1))
+                if ks:
+                    return "[" + "\x00".join(ks) + "]"  # alternatives, expanded by the caller
         return f"[{o.name}]"
+
+    def expand(txt: str) -> set[str]:
+        if "\x00" not in txt:
+            return {txt}
+        i = txt.index("[", 0)
+        # expand the first bracket that carries alternatives
+        import re as _re
+        m = _re.search(r"\[([^\[\]]*\x00[^\[\]]*)\]", txt)
+        out2: set[str] = set()
+        for alt in m.group(1).split("\x00"):
+            out2 |= expand(txt[: m.start()] + "[" + alt + "]" + txt[m.end():])
+        return out2
 
     for p in ff.paths(expr, spine_only=True):
         a = p.atom
         if a.kind == "selfattr":
-            out.add(a.name + "".join(sub(o) for o in p.ops if o.kind == "subscript"))
+            out |= expand(a.name + "".join(sub(o) for o in p.ops if o.kind == "subscript"))
         elif a.kind == "const":
             out.add("const:" + a.name)
         elif a.kind == "param":
